@@ -114,6 +114,10 @@ static ssize_t do_write_like(const char* name, int fd, long req, std::function<s
         if (plan.failed_path.empty()) plan.failed_path = p;
         if (plan.err == "short") {
             long nb = plan.short_bytes < req ? plan.short_bytes : (req > 0 ? req - 1 : 0);
+            // a destination that keeps cutting writes short still accepts at least one byte per call: an endless series of
+            // 0-returns for a 1-byte request is no behaviour of a real descriptor (that is what ENOSPC/EIO model), and libstdc++
+            // would (legitimately) retry it for ever
+            if (plan.persist && nb == 0 && req > 0) nb = req;
             ssize_t r = nb > 0 ? real_short(nb) : 0;
             logline("{\"n\":%ld,\"w\":%ld,\"call\":\"%s\",\"path\":\"%s\",\"req\":%ld,\"res\":%ld,\"injected\":\"short\"}\n", plan.n_all, plan.n_write, name, p.c_str(), req, (long)r);
             return r;
